@@ -238,7 +238,8 @@ pub fn gen_model(r: &mut Rng, with_tags: bool) -> ModelData {
         let n_tm = 1 + r.below(3);
         let mut tokens: Vec<Vec<char>> = vec![];
         while tokens.len() < n_tm {
-            let t = { let l = 1 + r.below(2); rand_chars(r, l) };
+            // now and then a LONG token (21 or 22 equal multi-byte characters: 63 / 66 / 84 / 88 bytes -- on both sides of 64)
+            let t = if r.below(12) == 0 { vec![['あ', 'ア', '漢', '\u{2000b}'][r.below(4)]; 21 + r.below(2)] } else { let l = 1 + r.below(2); rand_chars(r, l) };
             if !tokens.contains(&t) {
                 tokens.push(t);
             }
